@@ -32,6 +32,19 @@ Theorem C16_descriptor_3 : exec_passes_fd = 3%nat.
 Proof. exact exec_passes_descriptor_3. Qed.
 Print Assumptions C16_descriptor_3.
 
+(* an activated service serves whatever mode its inherited listening socket is in (the two facts about listen() and
+   Listener::accept are regenerated from server.rs) *)
+Theorem C16_inherited_socket_mode_is_irrelevant : forall inherited timeout pending,
+  accept_round accept_selects_only_with_timeout (effective_mode listen_forces_blocking inherited) timeout pending <> AWouldBlock /\
+  accept_round accept_selects_only_with_timeout (effective_mode listen_forces_blocking inherited) timeout pending =
+  accept_round accept_selects_only_with_timeout FBlocking timeout pending.
+Proof.
+  intros inherited timeout pending. destruct src_listen_forces_blocking as [F S]. rewrite F, S. split.
+  - apply forced_blocking_never_would_block.
+  - reflexivity.
+Qed.
+Print Assumptions C16_inherited_socket_mode_is_irrelevant.
+
 (* tie: the functions this property's model describes by hand (not by translation) still have the pinned text; an
    edit to one of them breaks this obligation and sends the check searching for a failing input *)
 From VLG Require Import ShapeGen.
